@@ -43,9 +43,9 @@ impl StreamFlags {
         W: io::Write,
     {
         // First byte is currently unused and hard-coded to null.
-        writer
-            .write(&[0x00, self.check_method as u8])
-            .map_err(Into::into)
+        let bytes = [0x00, self.check_method as u8];
+        writer.write_all(&bytes)?;
+        Ok(bytes.len())
     }
 }
 
